@@ -444,7 +444,12 @@ def r2(ctx):
             ok = U(accs[0].value).replace(" ", "") == f"{acc}.combine({lv})" and len(init) == 1 and any(U(r.value) == acc for r in returns(f.node))
     ctx.check("R2", f"{f.site()}::left-fold", ok, "acc = list[0]; for x in list[1:]: acc = acc.combine(x)",
               "concat is not a left fold in list order (acc.combine(next))")
-    # evaluate_model: chain ids
+    chain_labels(ctx)
+
+
+def chain_labels(ctx):
+    """evaluate_model: the chain id of every prediction column is the index of the file its sample came from (shared with C20: the
+    inter-chain variance groups the columns by these labels)"""
     f = ctx.fn("cli.evaluate_model.main")
     env = single_defs(f.node)
     cc = [c for c in calls(f.node, tail="concat")]
